@@ -83,7 +83,9 @@ def _needs_escape(c):
     return c in "\\'\"" or (o <= 255 and not (32 <= o < 127 or (o > 127 and c.isprintable()))) or 0xD800 <= o <= 0xDFFF
 
 
-def has_field_literal_needing_escape(src):
+def has_field_literal_needing_escape(src, nested_counts=True):
+    """nested_counts: a nested f-string counts (a 3.12+ host re-uses the outer quote from depth 2 on);
+    hosts before 3.12 find four kinds of quotes since fix 7395216, there only real escapes count"""
     import ast
     for n in ast.walk(ast.parse(src)):
         if isinstance(n, ast.FormattedValue):
@@ -92,8 +94,8 @@ def has_field_literal_needing_escape(src):
                     return True
                 if isinstance(m, ast.Constant) and isinstance(m.value, bytes):
                     return True
-                if isinstance(m, ast.JoinedStr):
-                    return True      # nested f-string: the quote alternation runs out at depth 2
+                if isinstance(m, ast.JoinedStr) and nested_counts:
+                    return True      # nested f-string: a 3.12+ host re-uses the outer quote at depth 2
     return False
 
 
@@ -158,6 +160,12 @@ def check_program(part, pool_, source, tags, switches, label, skip_runtimes=()):
                         skip = name
             if skip:
                 part["exclusions"]["host-syntax:" + skip] = part["exclusions"].get("host-syntax:" + skip, 0) + 1
+                if skip == "field-literal-needs-escape":
+                    # the TEXT of this cell is host-specific (open finding), but whether the host converts the
+                    # program at all still tells whether a refusal elsewhere is host-specific
+                    c0 = pool_.get(host).call({"op": "convert", "repo": env.REPO, "src": source, "cfg": list(cfg), "seed": 0})
+                    if c0.get("ok"):
+                        accepted.setdefault(tuple(cfg), []).append(host)
                 continue
             if "fstring-literal-needs-escape" in sw:
                 if esc_lit is None:
@@ -176,9 +184,9 @@ def check_program(part, pool_, source, tags, switches, label, skip_runtimes=()):
                 part["classes"]["rejected-on-host:" + host] += 1
                 part["extra"]["rejections"] = part["extra"].get("rejections", 0) + 1
                 if "field-literal-refusal-tolerated" in sw:
-                    if "field-literal-needs-escape" not in preds:
-                        preds["field-literal-needs-escape"] = has_field_literal_needing_escape(source)
-                    if preds["field-literal-needs-escape"]:
+                    if "field-literal-real-escape" not in preds:
+                        preds["field-literal-real-escape"] = has_field_literal_needing_escape(source, nested_counts=False)
+                    if preds["field-literal-real-escape"]:
                         continue
                 refused.setdefault(tuple(cfg), []).append((host, c.get("err")))
                 continue
